@@ -112,6 +112,20 @@ TetFreeToAdd(st, v) ==
         LET hf == FindHalffaceV(st, tri) IN hf = -1 \/ At(st.inc, hf) = -1
   /\ \A c \in LiveC(st) : CellVertSet(st, c) # Rng(v)      \* a simplicial complex has one cell per vertex set
 
+(* vertex cycles of length k over a few live vertices whose consecutive      *)
+(* vertices are joined by an edge, and the closed halfedge loop of a cycle   *)
+VCycles(st, k) ==
+  {l \in [1 .. k -> FirstN(LiveV(st), 6)] :
+      Cardinality(Rng(l)) = k /\ \A i \in 1 .. k : FindHalfedge(st, l[i], l[(i % k) + 1]) # -1}
+LoopOf(st, l) == [i \in 1 .. Len(l) |-> FindHalfedge(st, l[i], l[(i % Len(l)) + 1])]
+(* halfedge lists for the face entry points: closed loops of the given       *)
+(* lengths, and open lists (a loop without its last halfedge / with its last *)
+(* halfedge reversed)                                                        *)
+FaceLists(st, ks) ==
+  LET loops == UNION {{LoopOf(st, l) : l \in VCycles(st, k)} : k \in ks}
+  IN loops \cup {SubSeq(l, 1, Len(l) - 1) : l \in {x \in loops : Len(x) >= 3}}
+           \cup {[l EXCEPT ![Len(l)] = Opp(l[Len(l)])] : l \in {x \in loops : Len(x) >= 3}}
+
 XCallsOf(st, op, key) ==
   CASE op = "collapse_edge" ->
          IF ~(TetComplex(st) /\ CacheIsInverse(st)) THEN {}
@@ -149,6 +163,23 @@ XCallsOf(st, op, key) ==
          {KL("add_face_v", l) : l \in {l \in [1 .. 3 -> FirstN(LiveV(st), 5)] : l[1] # l[2] /\ l[1] # l[3] /\ l[2] # l[3]}}
          \cup {KL("add_face_v", l) : l \in {l \in [1 .. 4 -> FirstN(LiveV(st), 4)] : Cardinality(Rng(l)) = 4}}
          \cup {KL("add_face_v", l) : l \in {l \in [1 .. 2 -> FirstN(LiveV(st), 3)] : l[1] # l[2]}}
+    (* every face / halfface entry point of the tetrahedral kernel with closed loops of   *)
+    (* length 2..5 and open lists, with and without topology check: where an existing     *)
+    (* face contains the first two halfedges add_halfface reuses it, elsewhere it creates  *)
+    [] op = "tet_face_entry" ->
+         LET ls == FaceLists(st, {2, 3, 4, 5}) IN
+         (* without topology check a list of three halfedges must be a closed loop (the caller's obligation) *)
+         LET lb == {x \in ls \X BOOLEAN : x[2] \/ Len(x[1]) # 3 \/ ClosedLoop(st, x[1])} IN
+         {KLF("add_face", x[1], x[2]) : x \in lb} \cup {KLF("add_halfface", x[1], x[2]) : x \in lb}
+         \cup {KL("add_face_v", l) : l \in UNION {VCycles(st, k) : k \in {2, 4, 5}}}
+         \cup {KLF("add_halfface_v", l, b) : l \in {l \in [1 .. 3 -> FirstN(LiveV(st), 5)] : Cardinality(Rng(l)) = 3}, b \in BOOLEAN}
+    (* the hexahedral face entry points: closed loops of length 2, 4, 6, open lists of     *)
+    (* length 3 and 5, vertex lists of length 3 and 5                                      *)
+    [] op = "hex_face_entry" ->
+         LET ls == FaceLists(st, {2, 4, 6}) IN
+         {KLF("add_face", x[1], x[2]) : x \in {y \in ls \X BOOLEAN : y[2] \/ Len(y[1]) # 4 \/ ClosedLoop(st, y[1])}}
+         \cup {KL("add_face_v", l) : l \in {l \in [1 .. 3 -> FirstN(LiveV(st), 5)] : Cardinality(Rng(l)) = 3}}
+         \cup {KL("add_face_v", l) : l \in {l \in [1 .. 5 -> FirstN(LiveV(st), 5)] : Cardinality(Rng(l)) = 5 /\ l[1] < l[2]}}
     [] op = "split_edge" -> {K(op, h, v, <<>>, FALSE) : h \in LiveHE(st), v \in FirstN(IsolatedV(st), 1)}
     [] op = "split_face" -> {K(op, f, v, <<>>, FALSE) : f \in LiveF(st), v \in FirstN(IsolatedV(st), 1)}
     (* hexahedral: every ordering of every closed set of six free halffaces *)
@@ -240,6 +271,17 @@ ModelSplitProps(pre, c, m) ==
         /\ fresh(m.pE, "E") /\ fresh(m.pHE, "HE") /\ fresh(m.pF, "F") /\ fresh(m.pHF, "HF")
         /\ SplitChildrenOK(pre, S, n, m, [v |-> Iota(Len(pre.cells)), d |-> DefaultTok], [v |-> m.pC, d |-> DefaultTok])
 
+(* add_halfface(halfedges, check): an invalid handle and nothing changed, or  *)
+(* an existing halfface that contains the first two halfedges and nothing     *)
+(* changed, or exactly one triangle appended whose halfface 0 is returned     *)
+AddHalffaceRel(pre, c, post, ret) ==
+  IF ret < 0 THEN Unchanged(pre, post)
+  ELSE IF ret < NHF(pre)
+       THEN /\ Unchanged(pre, post) /\ ret \in LiveHF(pre)
+            /\ {c.l[1], c.l[2]} \subseteq Rng(HFHes(pre, ret))
+       ELSE /\ ret = 2 * Len(pre.faces) /\ Len(c.l) = 3 /\ (c.f => ClosedLoop(pre, c.l))
+            /\ AppendRel(pre, post, "F", c.l)
+
 XModelCheck(pre, c, m) ==
   IF m.err # "" THEN "NoInternalError:" \o m.err
   ELSE IF ~WellFormed(m) THEN "WellFormed"
@@ -255,6 +297,7 @@ XModelCheck(pre, c, m) ==
         ELSE IF c.op = "collapse_edge" /\ (m.deferred # pre.deferred \/ m.fast # pre.fast) THEN "collapse:modes"
         ELSE IF c.op \in {"tet_add_cell_4", "tet_add_cell_v"} /\ ~AddTetRel(pre, c.l, m, m.ret) THEN "AddTetRel"
         ELSE IF c.op \in {"add_face", "add_cell"} /\ m.ret = -1 /\ ~Unchanged(pre, m) THEN "RejectLeavesUnchanged"
+        ELSE IF c.op = "add_halfface" /\ ~AddHalffaceRel(pre, c, m, m.ret) THEN "AddHalffaceRel"
         ELSE IF c.op \notin TetOps /\ ~StepRel(pre, c, m, m.ret, ModelMap(m)) THEN "StepRel"
         ELSE IF Manifoldish(m) /\ ~ModelQueriesTet(m) THEN "C15:QueryContracts"
         ELSE "")
